@@ -1609,6 +1609,12 @@ func (idx *MergeSetIndex) ClearCache() error {
 		return nil
 	}
 	idx.logger.Info("ClearCache", zap.String("path", idx.path))
+	// The key->id cache is the only place where a series created since the last flush of the table can be
+	// looked up (a table search sees flushed parts only): make these series searchable before forgetting
+	// them, or the next write of such a series creates it a second time. No series is created meanwhile.
+	idx.mu.Lock()
+	defer idx.mu.Unlock()
+	idx.tb.DebugFlush()
 	if err := idx.cache.reset(); err != nil {
 		return err
 	}
